@@ -316,6 +316,9 @@ func asm14RealExec(c *Ctx, op string) {
 			if x.kind == "ro" || x.kind == "rw" {
 				w = api.WareID{Type: "mount", Hash: x.kind + ":" + host}
 			}
+			if x.kind == "rf" { // a mount of one regular host file (a resolv.conf, a secrets file)
+				w = api.WareID{Type: "mount", Hash: "ro:" + filepath.Join(host, "hostfile")}
+			}
 			filt := api.FilesetUnpackFilter_Lossless
 			if x.kind == "w5" {
 				filt = api.MustParseFilesetUnpackFilter("uid=1234,gid=2345,mtime=@4321,sticky=follow,setid=follow,dev=follow")
@@ -433,7 +436,7 @@ func asm14RealExec(c *Ctx, op string) {
 				continue
 			}
 			ac, bc := comps(a.path), comps(b.path)
-			if (b.kind == "ro" || b.kind == "rw") && isPrefix(bc, ac) {
+			if (b.kind == "ro" || b.kind == "rw" || b.kind == "rf") && isPrefix(bc, ac) {
 				wantInvalid = "mount"
 			}
 			// b is a ware that puts a symlink on a's parent chain: b.path + link name is a proper ancestor (or equal to parent) of a.path
@@ -519,6 +522,12 @@ func asm14RealExec(c *Ctx, op string) {
 				}
 				if e, ok := get[strings.TrimSuffix(a.path, "/")]; ok && a.path != "/" && (e.Perms != 0750 || e.Uid != 4000 || e.Gid != 5000) {
 					c.PropFail("asm-shadowing", fmt.Sprintf("input %s (empty fileset, 0750 4000:5000) shows as %o %d:%d", a.path, e.Perms, e.Uid, e.Gid), op)
+				}
+				continue
+			}
+			if a.kind == "rf" { // the host file itself shows at the input's path
+				if e, ok := get[strings.TrimSuffix(a.path, "/")]; !ok || e.Kind != 'f' || string(e.Content) != "host" {
+					c.PropFail("asm-shadowing", fmt.Sprintf("the host file mounted at %s is not visible there", a.path), op)
 				}
 				continue
 			}
@@ -792,6 +801,7 @@ func asm14Engine(c *Ctx) {
 		"/=w7,/hop/x=w0", "/=w7,/hop/osub/y=w0", "/=w7,/rel/x=w0", "/a=w7,/a/hop/x=rw", "/=w7,/hop2/x=w5",
 		"/=w0,/d=w6", "/=w1,/d=w6,/d/deep/z=w0", "/a=w5,/a/d5=w6", "/=w6", "/x/y=w6",
 		"/=w9,/pre/new/x=w0,/zlnk/q=w0", "/=w9,/pre/new/x=w0", "/=w9,/pre/new/deeper/x=ro,/zlnk/q/r=w1", "/=w9,/pre/existing/k=w0,/zz=w0,/zlnk/q=rw",
+		"/=w0,/d/resolv.conf=rf", "/etc/resolv.conf=rf", "/=w0,/fresh=rf", "/=w1,/d/deep/secret=rf,/zz=w0", "/f=rf,/f/x=w0", "/=w0,/file0=rf",
 		"/x=w0,/x=w1", "/=w0,/=w1", "/x=w0,/x=rw", "/x=ro,/x=w0", "/a=w0,/a/b=w1,/a/b=w5", "/x=w6,/x=w6",
 		"/a=rw,/a-b=ro,/a/x=w0", "/data=rw,/data-extra=rw,/data/sub=w5", "/a=rw,/a.b=rw,/a/b=w1", "/a=ro,/a-b=rw,/a/b/c=w0",
 		"/=w1,/lnk=w0", "/=w1,/lnk=ro", "/=w1,/lnk=rw", "/=w2,/abs=w0", "/=w2,/abs=rw", "/=w3,/up=ro", "/a=w1,/a/lnk=rw", "/a=w2,/a/abs=ro",
